@@ -224,6 +224,12 @@ def run(chk, prog):
                         for dd in st["decls"]:
                             if dd.get("decl") == d["decl"] and "init" in dd:
                                 calls = [y for y in A.walk(dd["init"]) if y.get("k") == "CXXMemberCallExpr" and (y.get("callee") or "").startswith("vfps::")]
+            if not calls and d is not None:
+                # a local buffer packed from the accessor: copy_n(<accessor expr>, n, <buffer expr>)
+                for y in A.walk(f["body"]):
+                    if y.get("k") == "CallExpr" and y.get("callee") == "std::copy_n" and len(y.get("args", [])) == 3 and \
+                            any(z["k"] == "DeclRefExpr" and z["decl"] == d["decl"] for z in A.walk(y["args"][2])):
+                        calls = [z for z in A.walk(y["args"][0]) if z.get("k") == "CXXMemberCallExpr" and (z.get("callee") or "").startswith("vfps::")]
             got = None
             if calls:
                 c = calls[0]
@@ -242,6 +248,120 @@ def run(chk, prog):
             t = A.show(r).replace(" ", "")
             ok = t.startswith(fld) and (sel is None or ("[%d]" % sel) in t)
         chk.check(ok, "R3", f.where, "%s returns %s%s" % (acc.split("::")[-1], fld, "" if sel is None else "[%d]" % sel), "accessor:%s" % acc)
+    # ---- R3(c): row shapes.  A record is written as one contiguous block of prod(dims[1:]) values: every dimension but the
+    # first of the record must equal the corresponding extent of the source array (a shorter row would pick up the tail of
+    # the previous bunch's row), unless the source is a local buffer packed row by row with exactly that stride.
+    from .. import indexmap as I
+    from . import sizemodel as S
+    def extents_of(cls_ctor_q, field):
+        for c in prog.fns(cls_ctor_q):
+            for i in c.get("inits", []):
+                if i.get("target") != field:
+                    continue
+                out = []
+                for x in A.walk(i["expr"]):
+                    if x["k"] == "CXXOperatorCallExpr" and x.get("op") == "[]" and "extent" in (x.get("callee") or "").lower():
+                        out.append(x)
+                if out:
+                    # outermost chain: collect subscripts from innermost to outermost
+                    chain = []
+                    cur = max(out, key=lambda z: len(A.show(z)))
+                    sc = I.Scanner(c)
+                    while cur.get("k") == "CXXOperatorCallExpr" and cur.get("op") == "[]":
+                        chain.append(S.norm(sc._try(cur["args"][1])))
+                        cur = A.strip(cur["args"][0], casts=False)
+                    return list(reversed(chain))
+        return None
+    NMAXR = sp.Symbol("nmax_rdtn", positive=True)
+    field_shape = {
+        ("vfps::PhaseSpace", "_projection"): extents_of("vfps::PhaseSpace::PhaseSpace", "_projection"),
+        ("vfps::PhaseSpace", "_data"): extents_of("vfps::PhaseSpace::PhaseSpace", "_data"),
+        ("vfps::PhaseSpace", "_moment"): extents_of("vfps::PhaseSpace::PhaseSpace", "_moment"),
+        ("vfps::PhaseSpace", "_rms"): extents_of("vfps::PhaseSpace::PhaseSpace", "_rms"),
+        ("vfps::ElectricField", "_csrspectrum"): extents_of("vfps::ElectricField::ElectricField", "_csrspectrum"),
+        ("vfps::ElectricField", "_csrintensity"): extents_of("vfps::ElectricField::ElectricField", "_csrintensity"),
+    }
+    A.require(all(v is not None for v in field_shape.values()), "multi_array extents of the stored arrays not found")
+    nm = sp.Symbol("_nmax", real=True)
+    nbn = sp.Symbol("_nbunches", real=True)
+    src_shape = {
+        "vfps::PhaseSpace::getData": field_shape[("vfps::PhaseSpace", "_data")],
+        "vfps::PhaseSpace::getProjection": field_shape[("vfps::PhaseSpace", "_projection")][1:],
+        "vfps::PhaseSpace::getMoment": field_shape[("vfps::PhaseSpace", "_moment")][2:],
+        "vfps::PhaseSpace::getBunchLength": field_shape[("vfps::PhaseSpace", "_rms")][1:],
+        "vfps::PhaseSpace::getEnergySpread": field_shape[("vfps::PhaseSpace", "_rms")][1:],
+        "vfps::ElectricField::getCSRSpectrum": [e_.subs({nm: NMAXR, nbn: S.B}) for e_ in field_shape[("vfps::ElectricField", "_csrspectrum")]],
+        "vfps::ElectricField::getCSRPower": [e_.subs({nbn: S.B}) for e_ in field_shape[("vfps::ElectricField", "_csrintensity")]],
+    }
+    hsc = I.Scanner(hc)
+    hsub = {sp.Symbol("_nBunches", real=True): S.B, sp.Symbol("_psSizeX", real=True): S.N, sp.Symbol("_psSizeY", real=True): S.N,
+            sp.Symbol("_maxn", real=True): sp.floor(NMAXR / 2)}
+    hini = {i.get("target"): hsc._try(i["expr"]) for i in hc["inits"] if i.get("ikind") == "member" and i.get("target") in ("_maxn", "_nBunches", "_psSizeX", "_psSizeY")}
+    okm = hini.get("_maxn") is not None and "getNMax" in str(hini["_maxn"]) and "floor" in str(hini["_maxn"])
+    chk.check(okm, "R3", hc.where, "_maxn is half the radiation field's transform length (%s)" % hini.get("_maxn"), "HDF5File:_maxn:%s" % hini.get("_maxn"))
+    gn = prog.fn("vfps::ElectricField::getNMax")
+    rr = [y for y in A.walk(gn["body"]) if y["k"] == "ReturnStmt"]
+    chk.check(len(rr) == 1 and A.this_field(rr[0]["c"][0]) == "_nmax", "R3", gn.where, "getNMax() returns the field's _nmax (row length of its spectra)", "getNMax")
+    ds_dims = {}
+    for i in hc["inits"]:
+        if i.get("target") in ds:
+            c_ = [x for x in A.walk(i["expr"]) if (x.get("callee") or "").startswith("vfps::HDF5File::_makeDatasetInfo")][0]
+            il = [y for y in A.walk(c_["args"][1]) if y["k"] == "InitListExpr"]
+            if il:
+                dd = [hsc._try(z) for z in il[-1]["inits"]]
+                ds_dims[i["target"]] = [S.norm(e_).subs(hsub) if e_ is not None else None for e_ in dd]
+    nshape = 0
+    for m_, sites in sorted(appends.items()):
+        if m_ not in ds or DATASET_SOURCE.get(ds[m_][0]) is None:
+            continue
+        acc_name = DATASET_SOURCE[ds[m_][0]][0]
+        if acc_name not in src_shape:
+            continue
+        rec = ds_dims.get(m_, [None])[1:]
+        want = src_shape[acc_name]
+        for f, x in sites:
+            src = A.strip(x["args"][1])
+            direct = any(y.get("k") == "CXXMemberCallExpr" and y.get("callee") == acc_name for y in A.walk(src))
+            # accessor result held in a local (auto mean_q = ps.getMoment(0,0)) is still the array itself
+            dl = A.declref(A.strip(A.call_object(src))) if src.get("k") == "CXXMemberCallExpr" and A.call_object(src) is not None else None
+            if not direct and dl is not None:
+                for st in A.walk(f["body"]):
+                    if st["k"] == "DeclStmt":
+                        for dd in st["decls"]:
+                            if dd.get("decl") == dl["decl"] and "init" in dd and any(y.get("callee") == acc_name for y in A.walk(dd["init"])) and \
+                                    "vector" not in (dd.get("ctype") or ""):
+                                direct = True
+            nshape += 1
+            if direct:
+                ok = len(rec) == len(want) and all(r_ is not None and sp.simplify(r_ - w_) == 0 for r_, w_ in zip(rec[1:], want[1:]))
+                chk.check(ok, "R3", A.loc(f, x), "record shape %s of %s agrees with the source array %s in every dimension but the first (contiguous block write)"
+                          % (rec, ds[m_][0], want), "dataset:%s:row-shape:%s:vs:%s" % (ds[m_][0], rec, want))
+            else:
+                # packed local buffer: size prod(rec); filled by copy_n(src + b*stride_src, rowlen, buf + b*rowlen)
+                fs = I.scan(f)
+                cps = [c_ for c_ in fs.calls if c_.callee == "std::copy_n" and c_.loops]
+                ok = False
+                why = "no row-wise packing loop found"
+                for c_ in cps:
+                    L = c_.loops[-1]
+                    a0, ln, a2 = c_.args
+                    if a0 is None or ln is None or a2 is None:
+                        continue
+                    rowlen = S.norm(ln).subs(hsub)
+                    s_stride = sp.expand(a0).coeff(L.sym, 1)
+                    d_stride = sp.expand(a2).coeff(L.sym, 1)
+                    nm_loc = [sym for sym in s_stride.free_symbols]
+                    src_row = want[-1]
+                    # the source stride must be the source row extent (nmax = ef->getNMax())
+                    s_ok = "getNMax" in str(s_stride) or sp.simplify(S.norm(s_stride).subs(hsub) - src_row) == 0
+                    ok = len(rec) == 2 and sp.simplify(rowlen - rec[1]) == 0 and sp.simplify(S.norm(d_stride).subs(hsub) - rec[1]) == 0 and s_ok and \
+                        L.lo == 0 and sp.simplify(S.norm(L.hi).subs(hsub) - rec[0]) == 0
+                    why = "rows of %s values copied from stride %s to stride %s for b in [%s,%s)" % (rowlen, s_stride, d_stride, L.lo, L.hi)
+                    if ok:
+                        break
+                chk.check(ok, "R3", A.loc(f, x), "%s is written from a local buffer packed row by row with the record's row length (%s)" % (ds[m_][0], why),
+                          "dataset:%s:packed-rows" % ds[m_][0])
+    chk.floor("R3-row-shapes", nshape, 8)
     # the time axis is written in the same branch as the per-record datasets of append(PhaseSpace)
     ap = [f for f in prog.fns("vfps::HDF5File::append") if "PhaseSpace" in f["sig"]]
     A.require(len(ap) == 1, "HDF5File::append(PhaseSpace) not found")
